@@ -631,7 +631,7 @@ def ts_monitor(case, out):
 
 
 
-TS_QUICK = 260
+TS_QUICK = 340
 TS_THOROUGH = 6000
 
 
@@ -696,6 +696,7 @@ def gen_cases(ctx):
         own = rand_tags(rng, TAGS)
         terms = rand_tags(rng, TAGS + own, nmax=5) if own else rand_tags(rng, TAGS, nmax=5)
         cases.append("G %s %s %s" % (enc_list(ns), enc_list(own), enc_list(terms)))
+        cases.append("D %s %s" % (enc_list(old if old else []), enc_list(new if new else [])))
     # stateful tag scenarios
     cases += ts_corner_cases()
     for _ in range(TS_QUICK if quick else TS_THOROUGH):
@@ -759,6 +760,13 @@ def monitors(cases, t):
                 fails.append(("norm-idempotent", c, "normalising the normalised list changes it: %r -> %r" % (ca, cb)))
         elif w[0] == "TS":
             fails += ts_monitor(c, t[c])
+        elif w[0] == "D":
+            # stringSliceDelta sorts its arguments in place (the first one is the topic's cached tag list):
+            # whatever it does to them, they must keep their elements
+            if len(o) == 6:
+                for before, after, name in ((w[1], o[4], "first"), (w[2], o[5], "second")):
+                    if sorted(dec_list(before) or []) != sorted(dec_list(after) or []):
+                        fails.append(("arguments-keep-their-elements", c, "stringSliceDelta left its %s argument %r as %r" % (name, dec_list(before), dec_list(after))))
         elif w[0] == "F":
             if len(o) > 2 and o[2].startswith("changed:"):
                 fails.append(("arguments-left-intact", c, "filterRestrictedTags rewrote the caller's slice %r to %r" % (dec_list(w[2]), dec_list(o[2][8:]))))
@@ -802,7 +810,7 @@ def neighbours(ctx, case):
             res.append(" ".join(w[:4] + ["/".join(ops[:i] + ops[i + 1:]) or "-"]))
         for i in range(1, len(ops)):
             res.append(" ".join(w[:4] + ["/".join(ops[:i])]))
-    elif w[0] in ("N", "NN", "R", "F", "G"):
+    elif w[0] in ("N", "NN", "R", "F", "G", "D"):
         # drop one element of the last list; add one tag
         l = dec_list(w[-1]) or []
         for i in range(len(l)):
@@ -866,9 +874,11 @@ def run(ctx):
 
     purelib.run_pure(
         ctx, "c19", gen_cases, monitors, neighbours, nontrivial,
-        rule="parseSearchQuery on every string of length <=5 (quick) / <=7 (thorough) over {a,b,space,tab,comma,quote,colon,e-acute} with login rewriting, a sample of them without, and seeded random queries of 1..6 terms (vocabulary of plain/prefixed/upper-case/non-ASCII/invalid terms and random runes of all UTF-8 widths, 30% quoted, 10% broken quotes, 8% glued, doubled commas, unicode white space around); rewriteTag on the vocabulary and random words; normalizeTags (once and twice) on random lists with case/space/duplicate/length/non-letter/null-marker variations under maxTagCount in {1,2,3,5,16}; restrictedTagsEqual / filterRestrictedTags / the fnd masked-namespace gate on random old/new lists against namespace sets {}, {email}, {email,tel}, {basic,x_1}, {a}",
+        rule="parseSearchQuery on every string of length <=5 (quick) / <=7 (thorough) over {a,b,space,tab,comma,quote,colon,e-acute} with login rewriting, a sample of them without, and seeded random queries of 1..6 terms (vocabulary of plain/prefixed/upper-case/non-ASCII/invalid terms and random runes of all UTF-8 widths, 30% quoted, 10% broken quotes, 8% glued, doubled commas, unicode white space around); rewriteTag on the vocabulary and random words; normalizeTags (once and twice) on random lists with case/space/duplicate/length/non-letter/null-marker variations under maxTagCount in {1,2,3,5,16}; restrictedTagsEqual / filterRestrictedTags / stringSliceDelta / the fnd masked-namespace gate on random old/new lists against namespace sets {}, {email}, {email,tel}, {basic,x_1}, {a}, each call with its argument slices compared before/after (F, R: untouched; D: same elements); stateful scenarios TS on real 'me' and group topics above memverif with globals.immutableTagNS in {basic}, {email,tel}, {basic,email}, {tel}, {x_1,basic}, {} and maxTagCount in {16,4,6,3}: 400 hand-shaped scenarios (one ordinary + one reserved tag in every relative order in the old and the new list; rejected attempt followed by a read, by an accepted update, by unload + reload; non-owner; store failure) and seeded random scenarios of 5..12 requests aimed at the holder's current tags (34% change ordinary tags only, 18% replace / 10% drop / 10% add a reserved tag, same set, null marker, duplicates, random; raw spellings with case and white space, shuffled / ascending / descending; 6% store failure; 15% non-owner), {get tags}, unload, server-side UpdateTags, {sub new set.tags}, {acc new tags} with an authenticator adding a reserved tag; after EVERY request the reply, the stored row and the loaded topic's tags of every holder are compared with the model and the laws are evaluated",
         trusted=["harness/overlay/server/zz_verif_c19_test.go (calls parseSearchQuery, rewriteTag, normalizeTags, filterRestrictedTags, restrictedTagsEqual, stringSliceDelta of package main; installs one fake validator and one fake authenticator so that rewriting is deterministic; request G restates the two-line gate expression of topic.go:2434-2442)",
                  "harness/runner/r_c19.ml: UTF-8 <-> rune list conversion (Go range-loop decoding), unicode tables of the Go toolchain instantiate the Section variables lower/is_letter/is_digit/is_number; their hypotheses are checked on all 0x110000 code points by the driver request UH on every run",
+                 "harness/overlay/server/zz_verif_c19x_test.go (scenario driver: real hub / topics / sessions / store mappers above memverif; sessions are attached on demand before a {set}/{get}; unload = {leave} of every session + the hub.unreg message of the idle timer; server-side tag change = store.Users.UpdateTags while the topic is not loaded; fake authenticator 'verifx' whose AddRecord appends the scenario's tags to rec.Tags as auth/basic does; the token authenticator is initialised with a fixed key; one failing adapter call injected through memverif.SetFault)",
+                 "harness/overlay/server/db/memverif (store contract modelled from db/mysql/adapter.go: UserUpdate/TopicUpdate replace the row's tags and refuse duplicates, UserUpdateTags returns the tags ordered)",
                  "tools/props/c19.py: python restatement of QuerySpec.denote / well_formed and of the tag laws, evaluated on the implementation's answers",
                  "byte order of valid UTF-8 strings equals code point order (checked by UH); input strings are valid UTF-8",
                  "the execution path of topic.go (fnd query -> parseSearchQuery -> gate -> store.Users.FindSubs with activeOnly = authLvl != root) is read, not run, by this check"],
